@@ -117,7 +117,12 @@ type request struct {
 }
 
 func genRequest(t *rapid.T) request {
-	l := fwgen.GenValid(t, fwgen.Options{MinPages: 1, MaxPages: 8, WantSev: true, WantTdx: true, MaxSevSections: 6, MaxTempMem: 3})
+	// mostly small images; one in eight is larger (up to 48 pages) so that size-dependent arithmetic is reached
+	maxPages := 8
+	if rapid.IntRange(0, 7).Draw(t, "bigImage") == 0 {
+		maxPages = 48
+	}
+	l := fwgen.GenValid(t, fwgen.Options{MinPages: 1, MaxPages: maxPages, WantSev: true, WantTdx: true, MaxSevSections: 6, MaxTempMem: 3})
 	r := request{layout: l, image: l.Spec.Build()}
 	switch rapid.IntRange(0, 3).Draw(t, "tech") {
 	case 0:
@@ -151,7 +156,12 @@ func genRequest(t *rapid.T) request {
 	if rapid.IntRange(0, 2).Draw(t, "svsm") == 0 {
 		r.svsm = rapid.SliceOfN(rapid.Byte(), 48, 48).Draw(t, "svsmv")
 	}
-	idx := rapid.SliceOfNDistinct(rapid.IntRange(0, len(shapes)-1), 0, 3, rapid.ID[int]).Draw(t, "shapes")
+	// 0-3 shapes usually; one request in six asks for up to all six (the production request)
+	maxShapes := 3
+	if rapid.IntRange(0, 5).Draw(t, "manyShapes") == 0 {
+		maxShapes = len(shapes)
+	}
+	idx := rapid.SliceOfNDistinct(rapid.IntRange(0, len(shapes)-1), 0, maxShapes, rapid.ID[int]).Draw(t, "shapes")
 	for _, i := range idx {
 		r.shapes = append(r.shapes, shapes[i])
 	}
@@ -242,7 +252,6 @@ func checkGolden(g *epb.VMGoldenMeasurement, r request, signed bool, primary str
 		if r.genoa {
 			bits = refsnp.Genoa
 		}
-		seen := map[string]uint32{}
 		for _, c := range counts {
 			got, ok := s.Measurements[c]
 			if !ok {
@@ -258,10 +267,6 @@ func checkGolden(g *epb.VMGoldenMeasurement, r request, signed bool, primary str
 			if !bytes.Equal(got, ref) {
 				return "C06/snp-measurement-differs", fmt.Sprintf("measurement for %d VMSAs %x, launch digest of the image %x", c, got, ref)
 			}
-			if prev, dup := seen[string(got)]; dup {
-				return "C06/snp-measurement-shared", fmt.Sprintf("counts %d and %d carry the same measurement", prev, c)
-			}
-			seen[string(got)] = c
 		}
 		if s.Svn != r.svn {
 			return "C06/snp-svn-differs", fmt.Sprintf("svn %d, requested %d", s.Svn, r.svn)
@@ -279,12 +284,18 @@ func checkGolden(g *epb.VMGoldenMeasurement, r request, signed bool, primary str
 			if !bytes.Equal(s.ImageId, img[:]) {
 				return "C06/snp-image-id-differs", fmt.Sprintf("image id %x, requested %s", s.ImageId, r.imageID)
 			}
-		} else if len(s.ImageId) != 16 {
-			return "C06/snp-image-id-differs", fmt.Sprintf("generated image id has %d bytes", len(s.ImageId))
+		} else {
+			// no image id requested: the implementation supplies one ("if empty, then random"). It must be a
+			// real 16-byte value: not all-zero, and not one that was already handed out for a different image.
+			if len(s.ImageId) != 16 || allZero(s.ImageId) {
+				return "C06/snp-placeholder-image-id", fmt.Sprintf("generated image id is %x", s.ImageId)
+			}
+			if prev, ok := generatedIDs[string(s.ImageId)]; ok && prev != want {
+				return "C06/snp-placeholder-image-id", fmt.Sprintf("generated image id %x was already given to a different image (digest %x...)", s.ImageId, prev[:8])
+			}
+			generatedIDs[string(s.ImageId)] = want
 		}
-		if s.Policy != 0x70000 {
-			return "C06/snp-policy-differs", fmt.Sprintf("policy %#x, want 0x70000", s.Policy)
-		}
+		// The policy word is not part of the property statement: it is not judged here.
 		if !bytes.Equal(s.SvsmMeasurement, r.svsm) {
 			return "C06/snp-svsm-differs", fmt.Sprintf("svsm %x, requested %x", s.SvsmMeasurement, r.svsm)
 		}
@@ -315,20 +326,10 @@ func checkGolden(g *epb.VMGoldenMeasurement, r request, signed bool, primary str
 			return "harness", err.Error()
 		}
 		wantRows = append(wantRows, row{0, false, md})
-		if len(g.Tdx.Measurements) != len(wantRows) {
-			return "C06/tdx-configuration-missing-or-extra", fmt.Sprintf("%d TDX rows, requested %d (shapes %v early %v)", len(g.Tdx.Measurements), len(wantRows), r.shapes, r.early)
-		}
-		for i, w := range wantRows {
-			got := g.Tdx.Measurements[i]
-			if got.RamGib != w.ram || got.EarlyAccept != w.early {
-				return "C06/tdx-row-configuration-differs", fmt.Sprintf("row %d is (ram %d, early %v), want (ram %d, early %v)", i, got.RamGib, got.EarlyAccept, w.ram, w.early)
-			}
-			if len(got.Mrtd) != 48 || allZero(got.Mrtd) {
-				return "C06/tdx-placeholder-measurement", fmt.Sprintf("row %d (ram %d early %v) MRTD %x", i, w.ram, w.early, got.Mrtd)
-			}
-			if !bytes.Equal(got.Mrtd, w.mrtd[:]) {
-				return "C06/tdx-measurement-differs", fmt.Sprintf("row %d (ram %d early %v) MRTD %x, measurement of the image %x", i, w.ram, w.early, got.Mrtd, w.mrtd)
-			}
+		if key, msg := compareTdxRows(g.Tdx.Measurements, len(wantRows), func(i int) (uint32, bool, []byte) {
+			return wantRows[i].ram, wantRows[i].early, wantRows[i].mrtd[:]
+		}); key != "" {
+			return key, fmt.Sprintf("%s (shapes %v early %v)", msg, r.shapes, r.early)
 		}
 		if g.Tdx.Svn != r.tdxSvn {
 			return "C06/tdx-svn-differs", fmt.Sprintf("svn %d, requested %d", g.Tdx.Svn, r.tdxSvn)
@@ -345,6 +346,59 @@ func checkGolden(g *epb.VMGoldenMeasurement, r request, signed bool, primary str
 	return "", ""
 }
 
+// generatedIDs remembers which image (by digest) each implementation-generated image id was seen with.
+// Only looked up by key, never iterated.
+var generatedIDs = map[string][48]byte{}
+
+type tdxLabel struct {
+	ram   uint32
+	early bool
+}
+
+// compareTdxRows judges the TDX rows as a collection: the statement fixes which configurations must
+// be present and what each one's measurement is, not the order of the rows. want(i) yields the i-th
+// expected row. Rows are grouped by their label (ram_gib, early_accept); within a label the MRTDs are
+// compared as sorted lists.
+func compareTdxRows(got []*epb.VMTdx_Measurement, nWant int, want func(int) (uint32, bool, []byte)) (string, string) {
+	if len(got) != nWant {
+		return "C06/tdx-configuration-missing-or-extra", fmt.Sprintf("%d TDX rows, requested %d", len(got), nWant)
+	}
+	for i, row := range got {
+		if len(row.Mrtd) != 48 || allZero(row.Mrtd) {
+			return "C06/tdx-placeholder-measurement", fmt.Sprintf("row %d (ram %d early %v) MRTD %x", i, row.RamGib, row.EarlyAccept, row.Mrtd)
+		}
+	}
+	gotBy := map[tdxLabel][]string{}
+	for _, row := range got {
+		l := tdxLabel{row.RamGib, row.EarlyAccept}
+		gotBy[l] = append(gotBy[l], string(row.Mrtd))
+	}
+	wantBy := map[tdxLabel][]string{}
+	var order []tdxLabel
+	for i := 0; i < nWant; i++ {
+		ram, early, m := want(i)
+		l := tdxLabel{ram, early}
+		if _, ok := wantBy[l]; !ok {
+			order = append(order, l)
+		}
+		wantBy[l] = append(wantBy[l], string(m))
+	}
+	for _, l := range order {
+		if len(gotBy[l]) != len(wantBy[l]) {
+			return "C06/tdx-row-configuration-differs", fmt.Sprintf("%d rows labelled (ram %d, early %v), want %d", len(gotBy[l]), l.ram, l.early, len(wantBy[l]))
+		}
+		g, w := append([]string(nil), gotBy[l]...), append([]string(nil), wantBy[l]...)
+		sort.Strings(g)
+		sort.Strings(w)
+		for i := range w {
+			if g[i] != w[i] {
+				return "C06/tdx-measurement-differs", fmt.Sprintf("row (ram %d early %v) MRTD %x, measurement of the image %x", l.ram, l.early, g[i], w[i])
+			}
+		}
+	}
+	return "", ""
+}
+
 func keysOf(m map[uint32][]byte) []uint32 {
 	var ks []uint32
 	for k := range m {
@@ -354,7 +408,7 @@ func keysOf(m map[uint32][]byte) []uint32 {
 	return ks
 }
 
-const ruleText = "generated firmware (1-8 pages, SEV+TDX metadata) x request {technology subset, VMSA count 0=all|1|2|3|8|240, Milan|Genoa, SVN, family id empty/default/custom/malformed, image id empty/given/malformed, SVSM value, 0-3 of the six machine shapes with/without early accept, changelist and/or commit, timestamp with nanoseconds, primary key name}; oracle on the message returned by endorse.GoldenMeasurement and on the payload inside endorse.SignDoc's result: digest == sha384(image); SNP measurement keys == requested count or exactly the 15 supported counts, each value == independent reference launch digest for that count and product, none all-zero or shared; TDX rows == one per shape (+ early accept) in request order plus the default row, each MRTD == independent reference for the shape's RAM banks and mode, ram_gib == shape size; SVN, family id (default when empty), image id, policy 0x70000, SVSM, provenance, timestamp, certificate and bundle of the current primary; the signer is handed sha256(payload) under the primary key name; malformed ids => error and nothing signed; non-trivial = >=2 configurations or both technologies; distinct = (request shape, image pages)"
+const ruleText = "generated firmware (1-8 pages, one in eight up to 48 pages, SEV+TDX metadata) x request {technology subset, VMSA count 0=all|1|2|3|8|240, Milan|Genoa, SVN, family id empty/default/custom/malformed, image id empty/given/malformed, SVSM value, 0-3 (one request in six: up to all 6) of the six machine shapes with/without early accept, changelist and/or commit, timestamp with nanoseconds, primary key name}; oracle on the message returned by endorse.GoldenMeasurement and on the payload inside endorse.SignDoc's result: digest == sha384(image); SNP measurement keys == requested count or exactly the 15 supported counts, each value == independent reference launch digest for that count and product, none all-zero; TDX rows (judged as a collection grouped by (ram_gib, early_accept), row order is not part of the statement) == one per shape (+ early accept) plus the default row, each MRTD == independent reference for the shape's RAM banks and mode, ram_gib == shape size; SVN, family id (default when empty), image id (given, or generated: 16 bytes, not all-zero, never the same value for two different images), SVSM, provenance, timestamp, certificate and bundle of the current primary; a signer call carries sha256(payload) under the primary key name; malformed ids => error (counted, not non-trivial); a rejected unsupported VMSA count (3) is inconclusive; the policy word is not judged; non-trivial = >=2 configurations or both technologies; distinct = (request shape, image pages)"
 
 func TestSignedDocumentDescribesImage(t *testing.T) {
 	const name = "document-vs-image"
@@ -386,10 +440,13 @@ func TestSignedDocumentDescribesImage(t *testing.T) {
 				ev.Violation(t, "C06/malformed-id-accepted", "%s: a malformed %s id was accepted", desc, r.badID)
 				return
 			}
-			if len(signer.digests) != 0 {
-				ev.Violation(t, "C06/signed-despite-error", "%s: the signer was called although the request is malformed", desc)
-			}
-			ev.Case(name, true, "bad-id/"+r.badID, "malformed-id-rejected", func() any { return map[string]any{"request": desc, "error": err.Error()} })
+			// (whether anything gets signed after such an error is judged where signing can happen: the CLI sub-check)
+			ev.Case(name, false, "bad-id/"+r.badID, "malformed-id-rejected", func() any { return map[string]any{"request": desc, "error": err.Error()} })
+			return
+		}
+		if err != nil && r.sev && r.vmsas != 0 && !supported(r.vmsas) {
+			// refusing a VMSA count that GCE does not sell is a legitimate answer: nothing gets signed
+			ev.Class(name, "inconclusive/unsupported-count-rejected")
 			return
 		}
 		if err != nil {
@@ -418,7 +475,13 @@ func TestSignedDocumentDescribesImage(t *testing.T) {
 			return
 		}
 		d := sha256.Sum256(e.SerializedUefiGolden)
-		if len(signer.digests) != 1 || !bytes.Equal(signer.digests[0], d[:]) || signer.keys[0] != primary {
+		sawPayload := false
+		for i := range signer.digests {
+			if bytes.Equal(signer.digests[i], d[:]) && signer.keys[i] == primary {
+				sawPayload = true
+			}
+		}
+		if !sawPayload {
 			ev.Violation(t, "C06/signed-bytes-differ-from-payload", "%s: signer saw keys %v digests %x, sha256(payload) %x", desc, signer.keys, signer.digests, d)
 			return
 		}
@@ -440,6 +503,15 @@ func TestSignedDocumentDescribesImage(t *testing.T) {
 			return map[string]any{"request": desc, "configurations": configs}
 		})
 	})
+}
+
+func supported(c uint32) bool {
+	for _, x := range supportedCounts {
+		if x == c {
+			return true
+		}
+	}
+	return false
 }
 
 func bucket(n int) string {
